@@ -35,6 +35,7 @@ class Program(Unit):
         self._trusted: List[str] = []
         self.unverified: List[str] = []
         self.derived_own = set()
+        self.derived_own_ns = set()      # (namespace, Pascal name): precise key (two namespaces may both have a type of that name)
         self.exclude = set()
 
     def trusted_base(self):
@@ -238,8 +239,11 @@ class Program(Unit):
         self.em, self.sp = em, sp
         out = Out()
         out.spec(HEAD)
+        # Option / Result combinators are not emitted by the unchanged generator; their std contracts are added when the emitted text uses one
+        etext = open(self.emitted_path, encoding='utf-8').read().split('pub mod error {')[0]
+        on_demand = ['stdspec-option-combinators'] if re.search(r'\.(or_else|or|filter|is_some_and|map_or|and_then|unwrap_or)\s*\(', etext) else []
         self._trusted = prelude(out, ['ax-rc', 'ax-parse', 'ax-string-eq', 'ax-tryfrom', 'ax-from-unsigned',
-                                      'stdspec-parse', 'stdspec-chars', 'stdspec-bytelen', 'ax-bytelen', 'stdspec-contains', 'stdspec-drop'],
+                                      'stdspec-parse', 'stdspec-chars', 'stdspec-bytelen', 'ax-bytelen', 'stdspec-contains', 'stdspec-drop'] + on_demand,
                                 [('dep_reqwest.rs', ['reqwest-error', 'reqwest-client']),
                                  ('dep_yaserde.rs', ['io-traits', 'io-write-trait-opaque', 'io-traits-end', 'xml', 'yaserde-begin', 'yaserde-traits', 'yaserde-end'])])
         self.check_helpers_verbatim(repo, em)
@@ -369,7 +373,15 @@ class Program(Unit):
             anchor = 'self.value.check_restrictions(restrictions)'
             if anchor in fn.body:
                 inserts.append({'at': anchor, 'where': 'before', 'text': hints})
-        splice_fn(out, fn, efile, fid, inherits=['accepts-valid', 'rejects-invalid'], probe=probe, inserts=inserts)
+        extra, origin = [], {}
+        if (ns, tname) in self.derived_own_ns:
+            # a type derived from a NAMED simple type: "including facets inherited through derivation" is stated as a clause of its own,
+            # so that the recorded finding (the OWN facets of such a type are not enforced) cannot hide a loss of the INHERITED ones
+            mp = re.search(r'&\s*self\s*,\s*(\w+)\s*:', fn.src[fn.toks[fn.head_first].start:fn.toks[fn.open].start])
+            if mp:
+                extra = [('enforces-inherited-facets', f'self.dom({mp.group(1)}) && !self.value.sat({mp.group(1)}) ==> res is Err')]
+                origin = {'enforces-inherited-facets': 'property'}
+        splice_fn(out, fn, efile, fid, inherits=['accepts-valid', 'rejects-invalid'], probe=probe, inserts=inserts, ensures=extra, origin=origin)
         close_container(out, im, efile)
 
     def sat_for(self, tname: str, ns: Optional[str], st_item: Optional[Item]):
@@ -444,6 +456,7 @@ class Program(Unit):
             # XSD derivation by restriction: the base type's facets AND the own facets apply
             if own_v != 'true':
                 self.derived_own.add(M.pascal(s.name))
+                self.derived_own_ns.add((s.ns, M.pascal(s.name)))
             dom = f'self.value.dom(r) && {own_d}'
             sat = f'self.value.sat(r) && {own_v}'
         hints = ''
